@@ -66,6 +66,8 @@ where
                     None => self.tick().await,
                     Some(deadline) => self.tick_with_deadline(deadline).await
                 };
+            #[cfg(feature = "pearl_verif")]
+            self.inner.verif.on_tick_done(self.deferred_index_dump_info.is_some());
 
             match tick_result {
                 Ok(TickResult::Continue) => {},
@@ -93,8 +95,6 @@ where
                 #[cfg(feature = "pearl_verif")]
                 self.inner.verif.on_received();
                 self.process_msg(msg).await?;
-                #[cfg(feature = "pearl_verif")]
-                self.inner.verif.on_processed(self.deferred_index_dump_info.is_some(), true);
                 Ok(TickResult::Continue)
             },
             None => Ok(TickResult::Stop)
@@ -109,8 +109,6 @@ where
                 #[cfg(feature = "pearl_verif")]
                 self.inner.verif.on_received();
                 self.process_msg(msg).await?;
-                #[cfg(feature = "pearl_verif")]
-                self.inner.verif.on_processed(self.deferred_index_dump_info.is_some(), true);
                 Ok(TickResult::Continue)
             },
             Ok(None) => {
@@ -120,8 +118,6 @@ where
                 // Deadline reached
                 self.next_deadline = None; // Reset deadline
                 self.process_defered().await?;
-                #[cfg(feature = "pearl_verif")]
-                self.inner.verif.on_processed(self.deferred_index_dump_info.is_some(), false);
                 Ok(TickResult::Continue)
             }
         }
